@@ -238,6 +238,7 @@ static void stage_child(const void *job, size_t n) {
 		bidib_flush();
 		const uint8_t *e[2] = {e1, e2}; int l[2] = {l1, l2}; char what[100]; int np;
 		snprintf(what, sizeof what, "payload length %d with %d bytes %02x", L, k, escbyte);
+		if (hx_emit_san_events(what)) break;          /* ASan build: the staging buffer itself must not be overrun */
 		if (!check_wire(e, l, 2, what, pk, 8, &np)) break;
 		if (env_nwrites() - w0 > np) chunked++;
 		hx_hash_add(&h, &np, sizeof np);
@@ -314,6 +315,10 @@ void c01_register(void) {
 int c01_run(const char *tier) {
 	int thorough = !strcmp(tier, "thorough"); batch_thorough = thorough;
 	long execs = 0, states = 0, transitions = 0; int exhaustive = 1;
+	{ const char *variant = getenv("VERIF_VARIANT"); if (variant && !strcmp(variant, "asan")) {      /* the ASan build runs the staging-buffer catalogue only */
+		ex_spec_t c = { .harness = "c01.stage", .ncases = 112, .gen = stage_gen, .label = "c01.stage (AddressSanitizer build)" };
+		ex_map(&c); rep_count("executions", c.done); rep_count("states", c.distinct_outcomes); rep_count("transitions", c.done * 250); rep_flag("exhaustive", c.exhaustive);
+		rep_note("c01.stage under AddressSanitizer: %ld payload lengths x escape bytes, every chunk boundary of the staging buffer", c.done); return 0; } }
 	/* (a) */
 	ex_spec_t a = { .harness = "c01.bytes", .ncases = (bytes_total() + BYTES_BATCH - 1) / BYTES_BATCH, .gen = bytes_gen, .on_result = bytes_on_result, .label = "c01.bytes" };
 	/* a failing batch is reported by the batch itself; additionally re-run the failing case alone for a minimal replay */
